@@ -257,6 +257,26 @@ CHECKS = {
             "digest.",
             "Hash seeds / prior activity are sampled dimensions (listed in "
             "evidence)."),
+    "C15": ("exploration",
+            "exhaustive lattice push-forward: each sampler run on the complete "
+            "midpoint lattice N^k of stream answers and compared with the "
+            "closed-form cdf/pmf; grid + quadrature for densities; grids for "
+            "cdf / inverse cdf",
+            "envmc",
+            "30 continuous and 13 discrete (class, parameter) cases reaching "
+            "every sampler branch: density >= 0, zero outside the support, "
+            "evaluable at bounds/mode, integral 1, equal to an independent "
+            "closed form; sampler on the full lattice (16384 points for k=1, "
+            "256^2, 48^3, 22^4) with Kolmogorov distance <= 2/N to the "
+            "closed-form cdf, discrete lattice mass == probability() "
+            "(exact where p is a multiple of 1/N); Poisson by "
+            "consumption-dimension lattices; cdf/inverse-cdf/erf_inv grids "
+            "(monotone, derivative = density, round trip 5e-8).",
+            "No random sample is drawn (the literal 'large random sample' is "
+            "replaced by the lattice push-forward); samplers consuming > 4 "
+            "uniforms per accepted draw only through the same loop body at "
+            "small counts; scipy closed forms as oracle; runs under "
+            "python3-vt."),
 }
 
 NOT_YET = {}
